@@ -209,3 +209,39 @@ func EvalQE(d *QEIdentityDoc, rep *QEReport) Verdict {
 	v.Exp, v.Clause = MustAccept, "qe-ok"
 	return v
 }
+
+// SelectModule finds "the TDX module identity TDX_<version>" and "its first level with
+// isvsvn not above TEE_TCB_SVN[0]".  ambiguous is set where the property does not fix
+// the answer (version >= 10: spelling of the id; duplicate identities).
+func SelectModule(d *TcbInfoDoc, in TcbInputs) (found bool, idx int, ambiguous bool) {
+	idx = -1
+	if in.Tee[1] == 0 {
+		return false, -1, false
+	}
+	if in.Tee[1] >= 10 {
+		return false, -1, true
+	}
+	id := fmt.Sprintf("TDX_%02d", in.Tee[1])
+	var mod *ModuleIdentity
+	cnt := 0
+	for i := range d.Modules {
+		if d.Modules[i].ID == id {
+			if mod == nil {
+				mod = &d.Modules[i]
+			}
+			cnt++
+		}
+	}
+	if cnt > 1 {
+		return true, -1, true
+	}
+	if mod == nil {
+		return false, -1, false
+	}
+	for i, l := range mod.Levels {
+		if l.Isvsvn <= uint32(in.Tee[0]) {
+			return true, i, false
+		}
+	}
+	return true, -1, false
+}
